@@ -8,7 +8,7 @@ for d in sorted(glob.glob('/verif/seeded/*/')):
     m=json.load(open(d+'meta.json'))
     m["initially_missed"]=label in notes
     if label in notes: m["strengthening"]=notes[label]
-    m["round"]={"a":1,"b":1,"c":2,"d":2,"e":3,"f":3,"g":4,"h":4,"i":5,"j":5,"k":6,"l":6,"m":7,"n":7}[label[-1]]
+    m["round"]={"a":1,"b":1,"c":2,"d":2,"e":3,"f":3,"g":4,"h":4,"i":5,"j":5,"k":6,"l":6,"m":7,"n":7,"o":8,"p":8}[label[-1]]
     json.dump(m,open(d+'meta.json','w'),indent=1)
     res=m["checks_run"]["results"].get(m["breaks_property"],{})
     rows.append((label,m["breaks_property"],m["summary"],m["needs"],", ".join(res.get("signatures",[])[:3]),("yes, after strengthening: "+notes[label]) if label in notes else "yes"))
